@@ -26,6 +26,7 @@ struct Registry
     std::unordered_set<const void*> live;
     std::string error; // first accounting error of the case
     long countdown = 0; // 0 = disarmed; n = the n-th copy/move throws
+    long ctor_countdown = 0; // 0 = disarmed; n = the n-th construction from a value throws
     std::uint64_t copies = 0, moves = 0, faults_thrown = 0;
 
     void reset()
@@ -33,6 +34,7 @@ struct Registry
         live.clear();
         error.clear();
         countdown = 0;
+        ctor_countdown = 0;
         copies = moves = faults_thrown = 0;
     }
     void born(const void* p)
@@ -44,6 +46,14 @@ struct Registry
     {
         if (!live.erase(p) && error.empty())
             error = "element destroyed twice (or destroyed without construction)";
+    }
+    void tick_ctor()
+    {
+        if (ctor_countdown > 0 && --ctor_countdown == 0)
+        {
+            ++faults_thrown;
+            throw Fault();
+        }
     }
     void tick(bool is_move)
     {
@@ -81,6 +91,7 @@ struct Tracked
     }
     explicit Tracked(int v) : value(v), origin(CALLER)
     {
+        reg().tick_ctor(); // may throw before the object exists
         reg().born(this);
     }
     Tracked(const Tracked& o) : value(o.value), origin(o.origin), moved_from(o.moved_from)
@@ -132,6 +143,7 @@ struct MoTracked
     }
     explicit MoTracked(int v) : value(v), origin(CALLER)
     {
+        reg().tick_ctor(); // may throw before the object exists
         reg().born(this);
     }
     MoTracked(const MoTracked&) = delete;
